@@ -141,6 +141,8 @@ def vsrc(v):
     src = getattr(v, "_verif_src", None)
     if src:
         return src
+    if isinstance(v, Schema):
+        return repr(v)                 # a schema passed as a VALUE: its repr is DSL source (C06)
     for s, obj in ZOO:
         if obj is v:
             return s
@@ -605,6 +607,13 @@ def positions(v, prefix=()):
     elif isinstance(v, dict):
         for k, x in v.items():
             yield from positions(x, prefix + (k,))
+
+
+def at(v, pos):
+    """the sub-value at a position"""
+    for k in pos:
+        v = v[k]
+    return v
 
 
 def replace_at(v, pos, new):
